@@ -29,6 +29,7 @@ type Obligation struct {
 	Pos       string `json:"pos"`       // file:line, informational
 	Status    Status `json:"status"`
 	Why       string `json:"why"`
+	Variant   string `json:"variant,omitempty"` // build variant the obligation was decided under (thorough tier)
 }
 
 func (o Obligation) Key() string { return o.Rule + " :: " + o.Construct }
@@ -58,6 +59,19 @@ type Run struct {
 	assumptions []string
 	explanation string
 	replay      string
+	variant     string
+	extra       map[string]any
+}
+
+// SetVariant tags the obligations added from now on with a build variant (e.g. GOOS=windows).
+func (r *Run) SetVariant(v string) { r.variant = v }
+
+// Extra records a structured block in the evidence's coverage section.
+func (r *Run) Extra(key string, v any) {
+	if r.extra == nil {
+		r.extra = map[string]any{}
+	}
+	r.extra[key] = v
 }
 
 func NewRun(property, tier string) *Run {
@@ -97,7 +111,7 @@ func (r *Run) add(rule, construct, pos string, st Status, why string) {
 	if _, ok := r.ruleDoc[rule]; !ok {
 		panic("undeclared rule " + rule)
 	}
-	r.obs = append(r.obs, Obligation{r.Property, rule, construct, r.rel(pos), st, why})
+	r.obs = append(r.obs, Obligation{r.Property, rule, construct, r.rel(pos), st, why, r.variant})
 }
 
 func (r *Run) rel(pos string) string {
@@ -159,7 +173,7 @@ func (r *Run) Finish() int {
 	seen := map[string]bool{}
 	var obs []Obligation
 	for _, o := range r.obs {
-		k := o.Key() + "|" + string(o.Status)
+		k := o.Key() + "|" + string(o.Status) + "|" + o.Variant
 		if seen[k] {
 			continue
 		}
@@ -201,12 +215,17 @@ func (r *Run) Finish() int {
 	for _, rule := range r.ruleOrder {
 		if perRule[rule] < r.floors[rule] {
 			vacuous = append(vacuous, Obligation{r.Property, rule, "floor", "", Undecided,
-				fmt.Sprintf("rule matched %d instances, hand-confirmed floor is %d: the rule would pass vacuously", perRule[rule], r.floors[rule])})
+				fmt.Sprintf("rule matched %d instances, hand-confirmed floor is %d: the rule would pass vacuously", perRule[rule], r.floors[rule]), ""})
 		}
 	}
 	und = append(und, vacuous...)
 
+	printed := map[string]bool{}
 	for _, o := range knownHit {
+		if printed[o.Key()] {
+			continue // the same finding under another build variant
+		}
+		printed[o.Key()] = true
 		k := knownSet[o.Key()]
 		fmt.Printf("KNOWN-FINDING: property=%s %s [%s] %s\n", r.Property, k.What, o.Key(), o.Pos)
 	}
@@ -233,7 +252,11 @@ func (r *Run) Finish() int {
 		p := filepath.Join(vdir, fmt.Sprintf("%d.json", i+1))
 		b, _ := json.MarshalIndent(o, "", "  ")
 		os.WriteFile(p, b, 0o644)
-		fmt.Printf("  %s %s\n    at %s\n    %s\n", strings.ToUpper(string(o.Status)), o.Key(), o.Pos, o.Why)
+		vs := ""
+		if o.Variant != "" {
+			vs = " [" + o.Variant + "]"
+		}
+		fmt.Printf("  %s %s%s\n    at %s\n    %s\n", strings.ToUpper(string(o.Status)), o.Key(), vs, o.Pos, o.Why)
 		fmt.Printf("VIOLATION property=%s replay=%s\n", r.Property, p)
 	}
 
@@ -287,6 +310,9 @@ func (r *Run) Finish() int {
 		"assumptions": r.assumptions,
 		"wall_s":      time.Since(r.start).Seconds(),
 		"violations":  len(viol) + len(und),
+	}
+	for k, v := range r.extra {
+		ev["coverage"].(map[string]any)[k] = v
 	}
 	if r.replay == "" && os.Getenv("VERIF_NO_EVIDENCE") == "" {
 		os.MkdirAll(filepath.Join(r.VerifDir, "evidence"), 0o755)
